@@ -596,6 +596,22 @@ func TestC16Wire(t *testing.T) {
 						viol("c16-refused-connect-published", "after a refused CONNECT followed by %s a resident received %s", p.Follow, resDefault.InboxDigest())
 						return
 					}
+					// a refusal says nothing about the next client: 25 clients with configured credentials (more than there are
+					// connection set-up workers, so every worker that handled the refusal handles one of them) are all admitted
+					if p.Follow == "nothing" && p.Nodes == 1 {
+						for k := 0; k < 25; k++ {
+							vc := w.NewClient(fmt.Sprintf("valid-%d", k), 1, AckAll)
+							u, pw := "alice", "pw-alice"
+							if p.Store == "file" {
+								u, pw = "bob", "pw-bob"
+							}
+							if rc := vc.Connect(ConnectOpts{ClientID: vc.Name, KeepAlive: 600, User: u, Password: pw}); rc != 0 {
+								viol("c16-valid-credentials-refused:after-a-refusal", "after (%q, %q) was refused, client %d of 25 presenting configured credentials got CONNACK %d", p.User, p.Pass, k+1, rc)
+								return
+							}
+						}
+						rep.Extra["runs_with_25_admissions_after_a_refusal"] = asInt(rep.Extra["runs_with_25_admissions_after_a_refusal"]) + 1
+					}
 				} else {
 					found := false
 					for _, s := range w.Node(1).DState.SessionMetadatas().All() {
